@@ -11,6 +11,8 @@ import (
 	"time"
 
 	"git.torproject.org/pluggable-transports/snowflake.git/v2/common/event"
+	"git.torproject.org/pluggable-transports/snowflake.git/v2/common/messages"
+	"git.torproject.org/pluggable-transports/snowflake.git/v2/common/util"
 	"github.com/pion/webrtc/v3"
 	"pgregory.net/rapid"
 	"verif.local/vstat"
@@ -52,6 +54,35 @@ func (s *scriptedRendezvous) Exchange(req []byte) ([]byte, error) {
 		return []byte(`{"answer":"{\"type\":\"offer\",\"sdp\":\"v=0\\r\\n\"}"}`), nil
 	case "both-empty":
 		return []byte(`{}`), nil
+	case "valid-answer-never-connects":
+		// a real answer from a real peer that goes away at once: the data channel never opens
+		pr, err := messages.DecodeClientPollRequest(req)
+		if err != nil {
+			return nil, err
+		}
+		offer, err := util.DeserializeSessionDescription(pr.Offer)
+		if err != nil {
+			return nil, err
+		}
+		pc, err := webrtc.NewPeerConnection(webrtc.Configuration{})
+		if err != nil {
+			return nil, err
+		}
+		defer pc.Close()
+		if err := pc.SetRemoteDescription(*offer); err != nil {
+			return nil, err
+		}
+		ans, err := pc.CreateAnswer(nil)
+		if err != nil {
+			return nil, err
+		}
+		done := webrtc.GatheringCompletePromise(pc)
+		if err := pc.SetLocalDescription(ans); err != nil {
+			return nil, err
+		}
+		<-done
+		a, _ := util.SerializeSessionDescription(pc.LocalDescription())
+		return (&messages.ClientPollResponse{Answer: a}).EncodePollResponse()
 	}
 	return nil, errors.New("unscripted")
 }
@@ -126,10 +157,17 @@ func TestVerifC15Rendezvous(t *testing.T) {
 		if time.Since(start) > time.Duration(vstat.Pick(60, 600))*time.Second {
 			rt.Skip("time budget of the real-time unit used up")
 		}
+		outcomes := []string{"transport-error", "empty", "nonjson", "error-json", "timeout-json", "answer-wrong-type", "answer-not-json", "answer-type-confusion", "answer-bad-sdp", "answer-is-offer", "both-empty"}
+		if vstat.Thorough() {
+			outcomes = append(outcomes, "valid-answer-never-connects") // costs the client's 10 s data channel time-out
+		}
 		c := rvCase{
 			ICE:     rapid.SampledFrom(iceConfigs).Draw(rt, "ice"),
-			Outcome: rapid.SampledFrom([]string{"transport-error", "empty", "nonjson", "error-json", "timeout-json", "answer-wrong-type", "answer-not-json", "answer-type-confusion", "answer-bad-sdp", "answer-is-offer", "both-empty"}).Draw(rt, "outcome"),
+			Outcome: rapid.SampledFrom(outcomes).Draw(rt, "outcome"),
 			Twice:   rapid.Bool().Draw(rt, "twice"),
+		}
+		if c.Outcome == "valid-answer-never-connects" {
+			c.ICE, c.Twice = nil, false // needs a usable configuration to get as far as the answer
 		}
 		uRv.Journal(c)
 		vstat.Run(uRv, t, rt, c, true, []string{"outcome=" + c.Outcome, fmt.Sprintf("ice=%q", c.ICE)}, runRendezvous)
